@@ -35,6 +35,12 @@ func SchemaForType(item any) (Schema, error) {
 	return schemaForType(typ)
 }
 
+// schemaForType generates the schema for typ. Self-referential types are not
+// supported; they are reported as an error rather than recursing forever.
+func schemaForType(typ reflect.Type) (Schema, error) {
+	return schemaForTypeSeen(typ, map[reflect.Type]bool{})
+}
+
 func isInSchemaRegistry(typ reflect.Type) (Schema, bool) {
 	schemaRegistryMutex.RLock()
 	defer schemaRegistryMutex.RUnlock()
@@ -42,7 +48,9 @@ func isInSchemaRegistry(typ reflect.Type) (Schema, bool) {
 	return s, ok
 }
 
-func schemaForType(typ reflect.Type) (Schema, error) {
+// schemaForTypeSeen is schemaForType with the set of struct types currently
+// being expanded.
+func schemaForTypeSeen(typ reflect.Type, seen map[reflect.Type]bool) (Schema, error) {
 	if s, ok := isInSchemaRegistry(typ); ok {
 		return s, nil
 	}
@@ -59,14 +67,14 @@ func schemaForType(typ reflect.Type) (Schema, error) {
 	case reflect.String:
 		return Schema{Type: "string"}, nil
 	case reflect.Struct:
-		return schemaForStruct(typ)
+		return schemaForStruct(typ, seen)
 	case reflect.Array, reflect.Slice:
-		return schemaForArray(typ)
+		return schemaForArray(typ, seen)
 	case reflect.Map:
-		return schemaForMap(typ)
+		return schemaForMap(typ, seen)
 	case reflect.Pointer:
 		// If this is a pointer to a basic type then we don't need to wrap in a union as all the basic types are nullable.
-		underlying, err := schemaForType(typ.Elem())
+		underlying, err := schemaForTypeSeen(typ.Elem(), seen)
 		if err != nil {
 			return Schema{}, fmt.Errorf("getting underlying schema for pointer: %w", err)
 		}
@@ -89,7 +97,13 @@ func nullableSchema(s Schema) Schema {
 	}
 }
 
-func schemaForStruct(typ reflect.Type) (Schema, error) {
+func schemaForStruct(typ reflect.Type, seen map[reflect.Type]bool) (Schema, error) {
+	if seen[typ] {
+		return Schema{}, fmt.Errorf("recursive type %s not supported", typ)
+	}
+	seen[typ] = true
+	defer delete(seen, typ)
+
 	fields := make([]SchemaRecordField, 0, typ.NumField())
 	for i := 0; i < typ.NumField(); i++ {
 		field := typ.Field(i)
@@ -98,7 +112,7 @@ func schemaForStruct(typ reflect.Type) (Schema, error) {
 			continue
 		}
 
-		s, err := schemaForType(field.Type)
+		s, err := schemaForTypeSeen(field.Type, seen)
 		if err != nil {
 			return Schema{}, fmt.Errorf("getting schema for field %s: %w", name, err)
 		}
@@ -127,7 +141,7 @@ func schemaForStruct(typ reflect.Type) (Schema, error) {
 
 var namespaceReplacer = strings.NewReplacer("/", ".", "-", "_")
 
-func schemaForArray(typ reflect.Type) (Schema, error) {
+func schemaForArray(typ reflect.Type, seen map[reflect.Type]bool) (Schema, error) {
 	elem := typ.Elem()
 	if elem.Kind() == reflect.Uint8 {
 		return Schema{
@@ -135,7 +149,7 @@ func schemaForArray(typ reflect.Type) (Schema, error) {
 		}, nil
 	}
 
-	s, err := schemaForType(elem)
+	s, err := schemaForTypeSeen(elem, seen)
 	if err != nil {
 		return Schema{}, fmt.Errorf("building array schema: %w", err)
 	}
@@ -148,8 +162,8 @@ func schemaForArray(typ reflect.Type) (Schema, error) {
 	}, nil
 }
 
-func schemaForMap(typ reflect.Type) (Schema, error) {
-	s, err := schemaForType(typ.Elem())
+func schemaForMap(typ reflect.Type, seen map[reflect.Type]bool) (Schema, error) {
+	s, err := schemaForTypeSeen(typ.Elem(), seen)
 	if err != nil {
 		return Schema{}, err
 	}
